@@ -321,3 +321,51 @@ def run(ctx):
     from ..order import SubCtx as _Sub
     from . import c15 as _c15
     _c15.run(_Sub(ctx, 'C20.4-i32-fields-on-the-wire', 'c15', allow=('C15.2-integer-widths',)))
+
+    # absent is a matter of the term's kind (the atom nil), not of its text: a string that happens to read "nil" is a string
+    ctx.rule('C20.1-absent-by-kind', 'in the from_term conversions (and their helpers) no text that may come out of a binary / string term is compared with the spelling of an atom sentinel ("nil", "true", "false", "undefined"): '
+             'such a test makes the text "nil" indistinguishable from the atom nil, so Some("nil") comes back as None', floor=0)
+    from ..fieldorder import reads_behind as _behind
+    SENT = ('nil', 'true', 'false', 'undefined')
+    n_ab = 0
+    for q in scope:
+        XB = P.B(q)
+        for bb, t in XB.calls():
+            nm = callee_of(t)[0] or ''
+            if nm.rsplit('::', 1)[-1] not in ('eq', 'ne') or len(t['args']) < 2:
+                continue
+            consts = [i for i, a in enumerate(t['args']) if XB.origin(a)[0] == 'const' and isinstance(XB.origin(a)[1], str) and XB.origin(a)[1] in SENT]
+            if not consts:
+                continue
+            other = t['args'][1 - consts[0]]
+            from_text = _behind(XB, other, lambda c: any((n or '').endswith(x) for n in callee_names(c) for x in ('::as_erlang_string', '::as_binary', '::from_utf8', '::from_utf8_lossy', '::as_string', '::as_str_lossy')))
+            if from_text:
+                n_ab += 1
+                ctx.bad('C20.1-absent-by-kind', '%s:%s' % (q.split('::{')[0].rsplit('::', 1)[-1], XB.origin(t['args'][consts[0]])[1]),
+                        'a text obtained from a binary/string term is compared with "%s": the string "%s" is taken for the atom, so a field holding that text is read back as absent (or as the boolean)'
+                        % (XB.origin(t['args'][consts[0]])[1], XB.origin(t['args'][consts[0]])[1]), ctx.where(XB, bb), key='SHAPE:%s:text-compared-with-atom-sentinel' % q.split('::{')[0])
+    if n_ab == 0:
+        ctx.ok('C20.1-absent-by-kind', 'from_term', 'no text of a binary is compared with an atom sentinel in %d functions' % len(scope))
+
+    # builders: what is added later replaces what was there (insert semantics), also when added in bulk
+    ctx.rule('C20.5-builder-last-wins', 'a bulk operation on a builder\'s map keeps insert semantics: when two maps are merged with BTreeMap::append the builder\'s own map is the receiver '
+             '(the appended entries win); draining the builder\'s map into the new entries lets the old values overwrite the new ones', floor=0)
+    n_bl = 0
+    for q in sorted(ctx.F.bodies):
+        if not (CR + 'builders::') in q:
+            continue
+        XB = P.B(q)
+        for bb, t in XB.calls():
+            nm = callee_of(t)[0] or ''
+            if not (nm.endswith('::append') and ('BTreeMap' in nm or 'btree' in nm) and len(t['args']) >= 2):
+                continue
+            n_bl += 1
+            recv, drained = str(canon(XB, t['args'][0])), str(canon(XB, t['args'][1]))
+            inst = '%s:append' % q.split('::{')[0].rsplit('::', 2)[-2]
+            if "('arg', 1)" in drained and "('arg', 1)" not in recv:
+                ctx.bad('C20.5-builder-last-wins', inst, 'the builder\'s own map is drained into the incoming entries: for a key present in both, the value already in the builder replaces the one just passed in', ctx.where(XB, bb),
+                        key='SHAPE:%s:append-direction' % q.split('::{')[0])
+            else:
+                ctx.ok('C20.5-builder-last-wins', inst, 'incoming entries are appended to the builder\'s map', ctx.where(XB, bb))
+    if n_bl == 0:
+        ctx.ok('C20.5-builder-last-wins', 'builders', 'no map merge in the builders (entries are inserted one by one)')
